@@ -929,3 +929,108 @@ Proof.
     cbn [fst snd] in P. unfold session_kd in P. cbn [fst] in P.
     unfold negotiate_kd in P. rewrite (not_le_1 cmax H) in P. cbn [get_supported fst n_outcome] in P. discriminate.
 Qed.
+
+(* ---- Connect succeeds only after an expected-type Success (one exception) ---------------------- *)
+(* the switch is confirmed by a SET_PROTOCOL_VERSION_RESPONSE carrying Success and by nothing else:
+   not by an ERROR_MESSAGE whatever its status (Success included), not by another type *)
+Lemma switch_confirmed_iff : forall r, set_accepted r = true <-> expected_success r.
+Proof.
+  intro r. split.
+  - destruct r as [cb mb st|st|t| | |]; cbn [set_accepted]; try discriminate.
+    intro H. apply N.eqb_eq in H. subst st. exists cb, mb. reflexivity.
+  - intros [cb [mb ->]]. reflexivity.
+Qed.
+
+(* the query, as the code is: answered by the expected response with Success, by
+   ERROR_MESSAGE/M_UnsupportedVersion — or by ERROR_MESSAGE/Success *)
+Lemma query_answered_today : forall r p, get_supported r = Some p ->
+  (exists cb mb, r = Resp cb mb StatusSuccess /\ p = (reader_ver cb, reader_ver mb)) \/
+  (r = ErrMsg StatusMsgVerUnsupported /\ p = (V1_0_1, V1_0_1)) \/
+  (r = ErrMsg StatusSuccess /\ p = (V1_0_1, V1_0_1)).
+Proof.
+  intros r p. destruct r as [cb mb st|st|t| | |]; cbn [get_supported]; try discriminate.
+  - destruct (st =? StatusSuccess) eqn:E; [|discriminate]. apply N.eqb_eq in E. subst st.
+    intro H. injection H as <-. left. exists cb, mb. split; reflexivity.
+  - destruct (st =? StatusMsgVerUnsupported) eqn:E.
+    + apply N.eqb_eq in E. subst st. cbn. intro H. injection H as <-. right. left. split; reflexivity.
+    + destruct (st =? StatusSuccess) eqn:E2; [|discriminate]. apply N.eqb_eq in E2. subst st.
+      intro H. injection H as <-. right. right. split; reflexivity.
+  - destruct (t =? MsgErrorMessage); [discriminate|]. destruct (t =? MsgGetSupportedVersionResponse); discriminate.
+Qed.
+
+(* "Connect succeeds only after an expected-type Success, except ERROR_MESSAGE/M_UnsupportedVersion
+   answering the query" is FALSE of the code as it is: ERROR_MESSAGE/Success answering the query
+   makes Connect proceed at 1.0.1 with the query as the only frame *)
+Lemma errmsg_success_query_today : forall cfg cmax r2, V1_0_1 < cmax ->
+  negotiate cfg cmax (ErrMsg StatusSuccess) r2
+  = mkRes [mkMsg V1_1 MsgGetSupportedVersion []] Proceeds V1_0_1.
+Proof.
+  intros cfg cmax r2 H. unfold negotiate. rewrite (not_le_1 cmax H). cbn [get_supported].
+  change (StatusSuccess =? StatusMsgVerUnsupported) with false. cbn iota.
+  change (StatusSuccess =? StatusSuccess) with true. cbn iota.
+  assert (L : (V1_0_1 <? cmax) = true) by (apply N.ltb_lt; exact H). rewrite L.
+  change (V1_0_1 =? V1_0_1) with true. cbn iota.
+  unfold stamp, new_message. cbn [m_typ m_payload]. reflexivity.
+Qed.
+
+Lemma errmsg_success_refuted_l : exists cfg cmax r1 r2, V1_0_1 < cmax /\
+  n_outcome (negotiate cfg cmax r1 r2) = Proceeds /\
+  ~ (expected_success r1 \/ r1 = ErrMsg StatusMsgVerUnsupported).
+Proof.
+  exists cfg_today, V1_1, (ErrMsg StatusSuccess), NoReply. split; [reflexivity|]. split; [reflexivity|].
+  intros [[cb [mb H]]|H]; discriminate.
+Qed.
+
+(* the repaired function *)
+Lemma strict_query_id : forall r, r <> ErrMsg StatusSuccess -> strict_query r = r.
+Proof.
+  intros r H. destruct r as [cb mb st|st|t| | |]; try reflexivity. cbn [strict_query].
+  destruct (st =? StatusSuccess) eqn:E; [|reflexivity]. apply N.eqb_eq in E. subst st. contradiction.
+Qed.
+
+Lemma query_answered_strict : forall r p, get_supported_strict r = Some p ->
+  (exists cb mb, r = Resp cb mb StatusSuccess /\ p = (reader_ver cb, reader_ver mb)) \/
+  (r = ErrMsg StatusMsgVerUnsupported /\ p = (V1_0_1, V1_0_1)).
+Proof.
+  intros r p H. unfold get_supported_strict in H.
+  destruct r as [cb mb st|st|t| | |]; try (cbn [strict_query] in H; destruct (query_answered_today _ _ H) as [A|[[A B]|[A B]]];
+    [left; exact A|right; split; assumption|discriminate A]).
+  cbn [strict_query] in H. destruct (st =? StatusSuccess) eqn:E.
+  - cbn in H. discriminate.
+  - destruct (query_answered_today _ _ H) as [[cb [mb [A _]]]|[[A B]|[A B]]].
+    + discriminate.
+    + right. split; assumption.
+    + injection A as ->. discriminate.
+Qed.
+
+(* the whole clause for the repaired function: for every configuration, client maximum above 1.0.1
+   and pair of reactions, Connect proceeds only if the query was rejected as an unsupported version
+   (then the query is the only frame and the version is 1.0.1), or was answered by the expected
+   response with Success and — if that called for the switch — the switch was answered by the
+   expected response with Success *)
+Lemma strict_success_only_after_expected : forall cfg cmax r1 r2, V1_0_1 < cmax ->
+  n_outcome (negotiate_strict cfg cmax r1 r2) = Proceeds ->
+  (r1 = ErrMsg StatusMsgVerUnsupported /\
+   negotiate_strict cfg cmax r1 r2 = mkRes [mkMsg V1_1 MsgGetSupportedVersion []] Proceeds V1_0_1) \/
+  (expected_success r1 /\ (switch_needed cmax r1 = true -> expected_success r2)).
+Proof.
+  intros cfg cmax r1 r2 H P. unfold negotiate_strict in *.
+  destruct (get_supported (strict_query r1)) as [p|] eqn:G.
+  - destruct (query_answered_strict r1 p G) as [[cb [mb [-> ->]]]|[-> ->]].
+    + right. split; [exists cb, mb; reflexivity|]. intro S.
+      unfold switch_needed in S. rewrite (not_le_1 cmax H) in S. cbn [negb andb get_supported] in S.
+      change (StatusSuccess =? StatusSuccess) with true in S. cbn iota in S. apply negb_true_iff in S.
+      cbn [strict_query] in P. unfold negotiate in P. rewrite (not_le_1 cmax H) in P.
+      cbn [get_supported] in P. change (StatusSuccess =? StatusSuccess) with true in P. cbn iota in P.
+      destruct (reader_ver cb =? _) eqn:E; [discriminate S|].
+      apply switch_confirmed_iff. destruct (set_accepted r2); [reflexivity|discriminate P].
+    + left. split; [reflexivity|]. cbn [strict_query].
+      change (StatusMsgVerUnsupported =? StatusSuccess) with false. cbn iota.
+      apply negotiation_unsupported_l. exact H.
+  - exfalso. unfold negotiate in P. rewrite (not_le_1 cmax H), G in P. discriminate.
+Qed.
+
+(* and the repair changes nothing else: for every other reaction negotiate_strict is negotiate *)
+Lemma strict_same_elsewhere : forall cfg cmax r1 r2, r1 <> ErrMsg StatusSuccess ->
+  negotiate_strict cfg cmax r1 r2 = negotiate cfg cmax r1 r2.
+Proof. intros. unfold negotiate_strict. rewrite strict_query_id by assumption. reflexivity. Qed.
